@@ -60,7 +60,7 @@ def check_target(acc, n, edges, form, backend, setting, tier, seen=None):
         tb = traceback.extract_tb(e.__traceback__)
         where = tb[-1].name if tb else "?"
         # the function the exception surfaced in goes into the observation, not into the key: a refactor may move it
-        acc.violation("solve", "TimeReversedSolver.solve", "raises-%s" % type(e).__name__, case,
+        acc.violation("solve", "TimeReversedSolver.solve", "raises", case,
                       "a circuit", "%s in %s" % (repr(e)[:200], where))
         return
     try:
